@@ -52,11 +52,13 @@ func (g *Generator) cookClient(typeName string) {
 	}
 	g.data.BodyHTTPMethods = []string{http.MethodPost, http.MethodPut, http.MethodPatch}
 
+	found := false
 	for _, f := range g.Pkg().Syntax {
 		ast.Inspect(f, func(n ast.Node) bool {
 			if !g.testNode(typeName, n) {
 				return true
 			}
+			found = true
 
 			ts, _ := n.(*ast.TypeSpec)
 			iface, _ := ts.Type.(*ast.InterfaceType)
@@ -173,6 +175,9 @@ func (g *Generator) cookClient(typeName string) {
 			}
 			return false
 		})
+	}
+	if !found {
+		logx.Fatalf("rest client interface not exists: %s", typeName)
 	}
 }
 
